@@ -3,8 +3,8 @@
 EXTENDS Complex
 AllClasses  == {"bin", "bins", "binstd", "cmp", "cmps", "cmpstd", "un", "part", "eq", "assign", "setpart", "std", "ctor", "str", "fwd", "cmpp"}
 ArithClasses == {"bin", "bins", "cmp", "cmps", "binstd", "cmpstd"}
-(* "alias": a compound real operand that is a part of the target itself (v *= v.real()).  Not enabled: xtl takes the   *)
-(* scalar by reference and gives (re*re, im*re*re); see proposed_fixes/C10-04.  Enable after that fix is committed.     *)
+(* "alias": a compound real operand that is a part of the target itself (v *= v.real()); the operand is the value    *)
+(* it had before the call (fix ec213c1 in /repo made xtl copy the scalar first).                                       *)
 WithAlias   == AllClasses \cup {"alias"}
 AllRegs     == CRegs
 (* "kinds" enumeration: every operation x every operand-kind pattern, few values *)
@@ -16,6 +16,8 @@ ValsVT      == (0 - 3)..3
 LV          == {"v1", "r1"}
 RV          == {"v2", "r2", "k1"}
 ValsSim     == (0 - 2)..3
+AllSTs      == SCTypes
+FewSTs      == {"T", "int"}
 (* the algebra the oracle is built from is complex arithmetic (checked once, at start-up) *)
 ASSUME Laws
 =============================================================================
